@@ -39,16 +39,53 @@ class NFrame(object):
         return describe(self.args) == describe(self.old.args)
 
 
+class RandomModel(object):
+    """Pseudo-random values for every symbol a pre-state builder may ask for (native probing)."""
+
+    VALUES = [0.0, 1.0, -1.0, 0.5, 2.0, 3.0, -2.5, 10.0, 25.4, 7.25, 100.0, 0.001]
+
+    def __init__(self, rnd):
+        self.rnd = rnd
+        self.cache = {}
+
+    def get(self, name, dflt=None):
+        if name.endswith("absoluteMode") and ".E." not in name:
+            name = "xyz.absoluteMode"        # X/Y/Z share the positioning mode (type invariant)
+        if name not in self.cache:
+            if name.endswith(".isnone") or name.endswith("absoluteMode") or "Enabled" in name or name in ("excluding", "clockwise"):
+                self.cache[name] = self.rnd.random() < 0.5
+            elif name.endswith("unitMultiplier") or name == "feedRateUnitMultiplier":
+                self.cache[name] = None      # decided below, consistently
+            else:
+                self.cache[name] = self.rnd.choice(self.VALUES)
+        v = self.cache[name]
+        if v is None:
+            if "unit" not in self.cache:
+                self.cache["unit"] = self.rnd.choice([1.0, 25.4])
+            v = self.cache["unit"]
+        return v
+
+    def items(self):
+        return list(self.cache.items())
+
+
 class NBuilder(object):
     native = True
 
     def __init__(self, model, choices, pkg):
+        self.rnd = None
+        if isinstance(model, dict) and "__random__" in model:
+            import random
+            self.rnd = random.Random(model["__random__"])
+            model = RandomModel(self.rnd)
         self.model = model
         self.choices = list(choices)
         self.pkg = pkg
 
     def _num(self, name, dflt=0.0):
         v = self.model.get(name, dflt)
+        if isinstance(v, bool):
+            v = 1.0 if v else 0.0
         if isinstance(v, dict):
             if "num" in v:
                 return int(v["num"]) / int(v["den"]) if int(v["den"]) != 1 else float(int(v["num"]))
@@ -76,7 +113,11 @@ class NBuilder(object):
         return self._num(name)
 
     def choose(self, n, label="shape"):
-        return self.choices.pop(0) if self.choices else 0
+        if self.choices:
+            return min(self.choices.pop(0), n - 1)
+        if self.rnd is not None:
+            return self.rnd.randrange(n)
+        return 0
 
     def new(self, clsname, **fields):
         cls = find_class(self.pkg, clsname)
@@ -94,8 +135,28 @@ class NBuilder(object):
     def assume(self, cond):
         pass
 
+    def _struct(self, name):
+        """Structured model entry (dict) or, when probing with random values, None."""
+        if self.rnd is not None:
+            return None
+        v = self.model.get(name)
+        return v if isinstance(v, dict) else {}
+
     def native_regions(self, name):
-        v = self.model.get(name) or {}
+        v = self._struct(name)
+        if v is None:       # random probe: 0..2 random regions
+            out = []
+            for i in range(self.rnd.randrange(3)):
+                if self.rnd.random() < 0.5:
+                    o = object.__new__(find_class(self.pkg, "RectangularRegion"))
+                    a, b_, c, d = [self.rnd.choice([0.0, 5.0, 10.0, 20.0, 50.0]) for _ in range(4)]
+                    o.x1, o.x2, o.y1, o.y2 = min(a, b_), max(a, b_), min(c, d), max(c, d)
+                else:
+                    o = object.__new__(find_class(self.pkg, "CircularRegion"))
+                    o.cx, o.cy, o.r = [self.rnd.choice([0.0, 5.0, 10.0, 20.0]) for _ in range(3)]
+                o.id = "r%d" % i
+                out.append(o)
+            return out
         out = []
         for e in v.get("regionlist", []):
             def num(x):
@@ -132,7 +193,12 @@ class NBuilder(object):
         return ["M117 %s line %d" % (name, i) for i in range(min(n, 3))]
 
     def realseq(self, name, even=False, min_len=0):
-        v = self.model.get(name) or {}
+        v = self._struct(name)
+        if v is None:
+            n = max(min_len, self.rnd.randrange(0, 6))
+            if even and n % 2:
+                n += 1
+            return tuple(self.rnd.choice(RandomModel.VALUES) for _ in range(n))
         out = []
         for x in v.get("realseq", []):
             out.append(float(int(x["num"]) / int(x["den"])) if isinstance(x, dict) and "num" in x else
@@ -171,7 +237,10 @@ class NBuilder(object):
 
     def gcode_command(self, name, code="G1"):
         """Build a real command string whose parameter words realise the model's items."""
-        v = self.model.get(name + ".items") or {}
+        v = self._struct(name + ".items")
+        if v is None:
+            v = {"items": [{"code": ord(self.rnd.choice("XYZEFIJRSPL")), "none": self.rnd.random() < 0.15,
+                            "value": self.rnd.choice(RandomModel.VALUES)} for _ in range(self.rnd.randrange(0, 6))]}
         words = []
         for it in v.get("items", []):
             c = it.get("code", 0)
